@@ -202,3 +202,35 @@ def _load_known() -> set[str]:
 
 
 KNOWN_KEYS = _load_known()
+
+
+def quiet_format() -> None:
+    """Formatting is not the subject of any lemma (error messages, log lines): make CrossHair's
+    format() interception return a placeholder for symbolic numbers instead of *realizing* them,
+    which would turn 'for every version' into one path per concrete version.  Implemented by
+    swapping the code object of crosshair.libimpl.builtinslib._format (same globals)."""
+    try:
+        import crosshair.libimpl.builtinslib as bl
+    except Exception:  # pragma: no cover
+        return
+    if getattr(bl, "_vf_quiet_format", False):
+        return
+
+    def _format(obj, format_spec=""):  # runs with builtinslib's globals
+        with NoTracing():  # noqa: F821
+            if isinstance(format_spec, AnySymbolicStr):  # noqa: F821
+                format_spec = realize(format_spec)  # noqa: F821
+            if format_spec in ("", "s") and isinstance(obj, AnySymbolicStr):  # noqa: F821
+                return obj
+            if isinstance(obj, CrossHairValue) and not isinstance(obj, AnySymbolicStr):  # noqa: F821
+                return "<symbolic>"
+            obj = deep_realize(obj)  # noqa: F821
+            result = invoke_dunder(obj, "__format__", format_spec)  # noqa: F821
+            if result is not _MISSING:  # noqa: F821
+                return result
+        return format(obj, format_spec)
+
+    need = ("NoTracing", "AnySymbolicStr", "realize", "CrossHairValue", "deep_realize", "invoke_dunder", "_MISSING")
+    if all(hasattr(bl, n) for n in need):
+        bl._format.__code__ = _format.__code__
+        bl._vf_quiet_format = True
